@@ -422,9 +422,12 @@ func (s *shard) repair(ctx context.Context, id []byte, property *propertyv1.Prop
 
 	// if the lastest property in shard is bigger than the repaired property,
 	// then the repaired process should be stopped.
+	// On the same revision a tombstone is newer than the live document, and the later of two tombstones wins:
+	// the states of a revision are ordered by deleteTime, so that a replica which missed the deletion can never
+	// bring the property back, whichever side starts the exchange.
 	if (olderProperties[len(olderProperties)-1].timestamp > property.Metadata.ModRevision) ||
 		olderProperties[len(olderProperties)-1].timestamp == property.Metadata.ModRevision &&
-			olderProperties[len(olderProperties)-1].deleteTime == deleteTime {
+			olderProperties[len(olderProperties)-1].deleteTime >= deleteTime {
 		return false, olderProperties[len(olderProperties)-1], nil
 	}
 
